@@ -141,16 +141,23 @@ def inverse_recursive_correct_octave(chord):
     -------
 
     """
+    from musiclang import Melody
+
+    def compensate(melody, octave):
+        # Absolute notes do not depend on the chord octave: only chord-relative notes are moved back
+        return Melody([n.copy() if n.is_absolute_note else n.o(octave) for n in melody.notes],
+                      nb_bars=melody.nb_bars, tags=set(melody.tags))
+
     bass_pitch = chord.bass_pitch
     if bass_pitch > 6:
         chord = chord.o(-1)
         for voice, melody in chord.score.items():
-            chord.score[voice] = melody.o(1)
+            chord.score[voice] = compensate(melody, 1)
         return inverse_recursive_correct_octave(chord)
     elif bass_pitch <= -6:
         chord = chord.o(1)
         for voice, melody in chord.score.items():
-            chord.score[voice] = melody.o(-1)
+            chord.score[voice] = compensate(melody, -1)
         return inverse_recursive_correct_octave(chord)
     else:
         new_chord = chord.copy()
